@@ -1,12 +1,952 @@
-//! Controlled scheduler for producer/consumer interleavings of a streaming body (C10, C11).
+//! Controlled scheduler: runs a producer program (BodyWriter operations) and a consumer loop
+//! (poll / park / spurious polls / fresh wakers) as two real threads of which exactly one runs
+//! at a time. Control changes hands only at yield points: before every acquisition of the
+//! chunker's mutex (hook H1), inside the harness waker's `wake()`, and at operation boundaries.
+//! A schedule is the list of choices made at the points where both actors could run; schedules
+//! are enumerated by stateless DFS with a preemption bound, or drawn by proptest.
 
+use crate::drain::{check_eos_truthful, check_terminated_stays, Ev, Step, Trace};
 use crate::engine::*;
-use serde_json::Value;
+use crate::entity::HarnessError;
+use crate::props::stream::{build, payload_byte, Payload, SBody};
+use crate::util::fingerprint;
+use http_body::Body as _;
+use http_serve::verif_hooks::{set_thread_callback, Event};
+use proptest::collection::vec;
+use proptest::prelude::*;
+use serde::{Deserialize, Serialize};
+use serde_json::{json, Value};
+use std::io::Write;
+use std::sync::{Arc, Condvar, Mutex};
+use std::task::{Context, Poll, Wake, Waker};
 
-pub fn run_for_c11(_cx: &Cx) -> Acc {
-    Acc::new()
+#[derive(Clone, Copy, Debug, PartialEq, Eq, Serialize, Deserialize)]
+pub enum POp {
+    Write(u32),
+    Flush,
+    /// Block until the consumer has received every byte flushed so far (or has terminated).
+    Wait,
+    Abort,
 }
 
-pub fn replay(_cx: &Cx, _phase: &str, _case: &Value, _acc: &mut Acc, _c11: bool) -> Check {
-    fail("replay-decode", "scheduler not built yet")
+#[derive(Clone, Copy, Debug, PartialEq, Eq, Serialize, Deserialize)]
+pub struct CCfg {
+    pub fresh_waker: bool,
+    pub spurious: u8,
+    /// sample is_end_stream()/size_hint() before every poll (two more lock acquisitions)
+    pub sample: bool,
+    pub extra_polls: u8,
+}
+
+#[derive(Clone, Debug, Serialize, Deserialize)]
+pub struct SchedCase {
+    pub chunk: usize,
+    pub program: Vec<POp>,
+    pub cfg: CCfg,
+    pub choices: Vec<u8>,
+}
+
+#[derive(Clone, Copy, PartialEq, Eq, Debug)]
+enum Actor {
+    P,
+    C,
+}
+
+#[derive(Clone, Copy, Debug)]
+pub struct ChoicePoint {
+    pub options: u8,
+    pub chosen: u8,
+    /// choosing an index > 0 here preempts an actor that could have continued
+    pub preemptive: bool,
+}
+
+#[derive(Default)]
+struct St {
+    current: Option<Actor>,
+    p_finished: bool,
+    c_finished: bool,
+    p_waiting: bool,
+    c_parked: bool,
+    woken: bool,
+    waker_gen: u64,
+    spurious_left: u8,
+    spurious_granted: bool,
+    choices: Vec<u8>,
+    choice_idx: usize,
+    log: Vec<ChoicePoint>,
+    // model
+    accepted: Vec<u8>,
+    flushed: usize,
+    model_buf: usize,
+    received: Vec<u8>,
+    c_terminal: bool,
+    writer_gone: bool,
+    aborted: Option<u32>,
+    abort_delivered: bool,
+    polls_after_gone: usize,
+    queued_at_gone: usize,
+    parks: usize,
+    producer_after_park: bool,
+    steps: usize,
+    bail: bool,
+    violation: Option<Fail>,
+    events: Vec<String>,
+}
+
+impl St {
+    fn ev(&mut self, s: String) {
+        if self.events.len() < 120 {
+            self.events.push(s);
+        }
+    }
+    fn enabled(&self, a: Actor) -> bool {
+        match a {
+            Actor::P => !self.p_finished && (!self.p_waiting || self.received.len() >= self.flushed || self.c_terminal),
+            Actor::C => !self.c_finished && (!self.c_parked || self.woken),
+        }
+    }
+    fn violate(&mut self, sig: &str, msg: String) {
+        if self.violation.is_none() {
+            self.violation = Some(Fail {
+                sig: sig.to_string(),
+                msg,
+            });
+        }
+        self.bail = true;
+    }
+}
+
+struct Sched {
+    m: Mutex<St>,
+    cv: Condvar,
+}
+
+const STEP_LIMIT: usize = 20_000;
+
+impl Sched {
+    /// Picks who runs next. `me_can_continue`: false when `me` is blocked (lock contended,
+    /// parked, waiting, finished).
+    fn pick(&self, st: &mut St, me: Actor, me_can_continue: bool) -> Option<Actor> {
+        let other = if me == Actor::P { Actor::C } else { Actor::P };
+        let mut opts: Vec<(Actor, bool)> = Vec::new(); // (actor, is_spurious_grant)
+        if me_can_continue && st.enabled(me) {
+            opts.push((me, false));
+        }
+        if st.enabled(other) {
+            opts.push((other, false));
+        } else if other == Actor::C && !st.c_finished && st.c_parked && !st.woken && st.spurious_left > 0 && me_can_continue {
+            opts.push((Actor::C, true));
+        }
+        if opts.is_empty() {
+            // A blocked `me` (lock contention) with nobody else to run just retries.
+            if !me_can_continue && st.enabled(me) {
+                return Some(me);
+            }
+            return None;
+        }
+        let idx = if opts.len() > 1 {
+            let want = st.choices.get(st.choice_idx).copied().unwrap_or(0) as usize;
+            let idx = want.min(opts.len() - 1);
+            st.choice_idx += 1;
+            st.log.push(ChoicePoint {
+                options: opts.len() as u8,
+                chosen: idx as u8,
+                preemptive: opts[0].0 == me,
+            });
+            idx
+        } else {
+            0
+        };
+        let (a, spurious) = opts[idx];
+        if spurious {
+            st.spurious_left -= 1;
+            st.spurious_granted = true;
+        }
+        Some(a)
+    }
+
+    /// Hands the baton to `next` (or declares quiescence) and waits until it comes back.
+    fn switch(&self, mut st: std::sync::MutexGuard<'_, St>, me: Actor, next: Option<Actor>, wait_for_return: bool) {
+        match next {
+            Some(a) if a == me => {}
+            Some(a) => {
+                st.current = Some(a);
+                self.cv.notify_all();
+            }
+            None => {
+                self.quiescent(&mut st);
+                self.cv.notify_all();
+            }
+        }
+        if !wait_for_return {
+            return;
+        }
+        while st.current != Some(me) && !st.bail {
+            st = self.cv.wait(st).unwrap();
+        }
+    }
+
+    /// Nobody can run. Either the execution is complete, or the consumer sleeps forever.
+    fn quiescent(&self, st: &mut St) {
+        st.current = None;
+        if st.c_finished && st.p_finished {
+            return;
+        }
+        if !st.c_finished && st.c_parked && !st.woken {
+            let pending = st.flushed.saturating_sub(st.received.len());
+            let what = if st.aborted.is_some() && !st.abort_delivered {
+                "abort"
+            } else if pending > 0 {
+                "data"
+            } else if st.writer_gone {
+                "end"
+            } else {
+                "nothing"
+            };
+            if what == "nothing" && st.p_waiting {
+                // cannot happen: a waiting producer is enabled when nothing is pending
+            }
+            let ev = st.events.join(" | ");
+            st.violate(
+                &format!("lost-wakeup:{what}"),
+                format!(
+                    "the consumer is parked with no wake-up pending on its current waker while {} ({} flushed bytes undelivered, writer gone: {}, producer {}); history: {}",
+                    match what {
+                        "abort" => "an abort error is undelivered",
+                        "data" => "flushed chunks are undelivered",
+                        "end" => "the end of the stream is undelivered",
+                        _ => "the producer waits",
+                    },
+                    pending,
+                    st.writer_gone,
+                    if st.p_finished { "finished" } else { "waiting for delivery" },
+                    ev
+                ),
+            );
+        } else if !st.p_finished && st.c_finished {
+            let ev = st.events.join(" | ");
+            st.violate("internal:producer-stuck", format!("producer blocked after the consumer finished; history: {ev}"));
+        } else {
+            st.bail = true;
+        }
+    }
+
+    fn yield_point(&self, me: Actor, me_can_continue: bool) {
+        let mut st = self.m.lock().unwrap();
+        if st.bail {
+            return;
+        }
+        st.steps += 1;
+        if st.steps > STEP_LIMIT {
+            let ev = st.events.join(" | ");
+            st.violate("internal:livelock", format!("more than {STEP_LIMIT} scheduling steps; history: {ev}"));
+            self.cv.notify_all();
+            return;
+        }
+        let next = self.pick(&mut st, me, me_can_continue);
+        self.switch(st, me, next, true);
+    }
+
+    fn finish(&self, me: Actor) {
+        let mut st = self.m.lock().unwrap();
+        match me {
+            Actor::P => st.p_finished = true,
+            Actor::C => st.c_finished = true,
+        }
+        if st.bail {
+            self.cv.notify_all();
+            return;
+        }
+        let next = self.pick(&mut st, me, false);
+        self.switch(st, me, next, false);
+    }
+
+    fn bailed(&self) -> bool {
+        self.m.lock().unwrap().bail
+    }
+}
+
+struct SchedWaker {
+    sched: Arc<Sched>,
+    gen: u64,
+}
+
+impl Wake for SchedWaker {
+    fn wake(self: Arc<Self>) {
+        self.wake_by_ref();
+    }
+    fn wake_by_ref(self: &Arc<Self>) {
+        {
+            let mut st = self.sched.m.lock().unwrap();
+            let current = st.waker_gen == self.gen;
+            if current {
+                st.woken = true;
+            }
+            let g = self.gen;
+            st.ev(format!("wake(gen {g}{})", if current { "" } else { ", superseded: ignored" }));
+        }
+        // Waking is a yield point for whoever calls it (normally the producer).
+        ACTOR.with(|a| {
+            if let Some(me) = a.get() {
+                self.sched.yield_point(me, true);
+            }
+        });
+    }
+}
+
+thread_local! {
+    static ACTOR: std::cell::Cell<Option<Actor>> = const { std::cell::Cell::new(None) };
+}
+
+fn install(sched: &Arc<Sched>, me: Actor) {
+    ACTOR.with(|a| a.set(Some(me)));
+    let s = sched.clone();
+    set_thread_callback(Some(Box::new(move |ev| match ev {
+        Event::BeforeLock => s.yield_point(me, true),
+        Event::Contended => s.yield_point(me, false),
+        _ => {}
+    })));
+}
+
+fn uninstall() {
+    set_thread_callback(None);
+    ACTOR.with(|a| a.set(None));
+}
+
+pub struct Outcome {
+    pub log: Vec<ChoicePoint>,
+    pub violation: Option<Fail>,
+    pub trace: Trace<HarnessError>,
+    pub parks: usize,
+    pub producer_after_park: bool,
+    pub events: Vec<String>,
+    pub preemptions: usize,
+}
+
+fn producer(sched: Arc<Sched>, mut w: crate::props::stream::SWriter, case: SchedCase) {
+    install(&sched, Actor::P);
+    let mut pos = 0u64;
+    for (i, op) in case.program.iter().enumerate() {
+        sched.yield_point(Actor::P, true); // operation boundary
+        if sched.bailed() {
+            break;
+        }
+        match *op {
+            POp::Write(n) => {
+                let buf: Vec<u8> = (0..n as u64).map(|k| payload_byte(Payload::Hash, pos + k)).collect();
+                let r = crate::panics::guard(|| w.write(&buf));
+                let mut st = sched.m.lock().unwrap();
+                match r {
+                    Ok(Ok(k)) => {
+                        let k = k.min(buf.len());
+                        st.accepted.extend_from_slice(&buf[..k]);
+                        pos += k as u64;
+                        if st.model_buf + k >= case.chunk {
+                            st.flushed = st.accepted.len();
+                            st.model_buf = 0;
+                        } else {
+                            st.model_buf += k;
+                        }
+                        if st.aborted.is_some() {
+                            st.violate("abort:write-ok-after-abort", format!("op {i} write succeeded after abort"));
+                        } else if n > 0 && k == 0 {
+                            st.violate("w:write-accepted-zero", format!("op {i} write of {n} bytes accepted nothing"));
+                        }
+                        st.ev(format!("P write({n})->{k}"));
+                    }
+                    Ok(Err(_)) => {
+                        if st.aborted.is_none() {
+                            st.violate("w:write-failed-live", format!("op {i} write failed on a live body"));
+                        }
+                        st.ev(format!("P write({n})->Err"));
+                    }
+                    Err(m) => st.violate("panic:producer", format!("op {i} write panicked: {m}")),
+                }
+            }
+            POp::Flush => {
+                let r = crate::panics::guard(|| w.flush());
+                let mut st = sched.m.lock().unwrap();
+                match r {
+                    Ok(Ok(())) => {
+                        st.flushed = st.accepted.len();
+                        st.model_buf = 0;
+                        if st.aborted.is_some() {
+                            st.violate("abort:flush-ok-after-abort", format!("op {i} flush succeeded after abort"));
+                        }
+                        st.ev("P flush->Ok".into());
+                    }
+                    Ok(Err(_)) => {
+                        if st.aborted.is_none() {
+                            st.violate("w:flush-failed-live", format!("op {i} flush failed on a live body"));
+                        }
+                        st.ev("P flush->Err".into());
+                    }
+                    Err(m) => st.violate("panic:producer", format!("op {i} flush panicked: {m}")),
+                }
+            }
+            POp::Wait => {
+                {
+                    let mut st = sched.m.lock().unwrap();
+                    st.p_waiting = true;
+                    st.ev("P wait".into());
+                }
+                sched.yield_point(Actor::P, false);
+                let mut st = sched.m.lock().unwrap();
+                st.p_waiting = false;
+                st.ev("P wait done".into());
+            }
+            POp::Abort => {
+                let id = 9000 + i as u32;
+                {
+                    let mut st = sched.m.lock().unwrap();
+                    if st.aborted.is_none() {
+                        st.aborted = Some(id);
+                        // From now on the consumer may see the error at any time.
+                        st.writer_gone = true;
+                        st.queued_at_gone = st.flushed.saturating_sub(st.received.len());
+                    }
+                    st.ev("P abort".into());
+                }
+                let r = crate::panics::guard(|| w.abort(HarnessError::Injected(id)));
+                if let Err(m) = r {
+                    sched.m.lock().unwrap().violate("panic:producer", format!("op {i} abort panicked: {m}"));
+                }
+            }
+        }
+        if sched.bailed() {
+            break;
+        }
+    }
+    // Drop the writer (flushes the partial chunk, marks the end).
+    sched.yield_point(Actor::P, true);
+    {
+        let mut st = sched.m.lock().unwrap();
+        if st.aborted.is_none() {
+            st.flushed = st.accepted.len();
+            st.writer_gone = true;
+            // every queued chunk holds at least one byte
+            st.queued_at_gone = st.flushed.saturating_sub(st.received.len());
+        }
+        st.ev("P drop".into());
+    }
+    if let Err(m) = crate::panics::guard(move || drop(w)) {
+        sched.m.lock().unwrap().violate("panic:producer", format!("dropping the writer panicked: {m}"));
+    }
+    uninstall();
+    sched.finish(Actor::P);
+}
+
+fn consumer(sched: Arc<Sched>, body: SBody, case: SchedCase, out: Arc<Mutex<Trace<HarnessError>>>) {
+    install(&sched, Actor::C);
+    let mut body = Box::pin(body);
+    let mut gen = 1u64;
+    let mut waker = Waker::from(Arc::new(SchedWaker { sched: sched.clone(), gen }));
+    let mut t: Trace<HarnessError> = Trace {
+        steps: vec![],
+        extra: vec![],
+        body: vec![],
+        delivered: 0,
+        frames: 0,
+        empty_frames: 0,
+        pendings: 0,
+        capped: false,
+        stalled: false,
+    };
+    let mut terminal = false;
+    let mut extra_left = case.cfg.extra_polls;
+    // Wait for the first turn.
+    {
+        let mut st = sched.m.lock().unwrap();
+        st.waker_gen = gen;
+        while st.current != Some(Actor::C) && !st.bail {
+            st = sched.cv.wait(st).unwrap();
+        }
+    }
+    loop {
+        if sched.bailed() {
+            break;
+        }
+        if terminal {
+            if extra_left == 0 {
+                break;
+            }
+            extra_left -= 1;
+        }
+        if case.cfg.fresh_waker {
+            gen += 1;
+            waker = Waker::from(Arc::new(SchedWaker { sched: sched.clone(), gen }));
+        }
+        {
+            let mut st = sched.m.lock().unwrap();
+            st.waker_gen = gen;
+            st.woken = false; // being polled consumes any wake-up
+        }
+        let (lower, upper, eos) = if case.cfg.sample {
+            match crate::panics::guard(|| {
+                let h = body.size_hint();
+                (h.lower(), h.upper(), body.is_end_stream())
+            }) {
+                Ok(x) => x,
+                Err(m) => {
+                    sched.m.lock().unwrap().violate("panic:consumer", format!("size_hint/is_end_stream panicked: {m}"));
+                    break;
+                }
+            }
+        } else {
+            (0, None, false)
+        };
+        let mut cx = Context::from_waker(&waker);
+        let r = crate::panics::guard(|| body.as_mut().poll_frame(&mut cx));
+        let mut st = sched.m.lock().unwrap();
+        if st.writer_gone && !terminal {
+            st.polls_after_gone += 1;
+        }
+        let ev = match r {
+            Err(m) => {
+                st.violate("panic:consumer", format!("poll_frame panicked: {m}"));
+                Ev::Panic(m)
+            }
+            Ok(Poll::Pending) => Ev::Pending,
+            Ok(Poll::Ready(None)) => Ev::End,
+            Ok(Poll::Ready(Some(Err(e)))) => Ev::Err(e),
+            Ok(Poll::Ready(Some(Ok(f)))) => match f.into_data() {
+                Ok(d) => {
+                    if !terminal {
+                        st.received.extend_from_slice(&d);
+                        t.frames += 1;
+                    }
+                    t.delivered += d.len() as u64;
+                    Ev::Data(d.len())
+                }
+                Err(_) => Ev::Data(0),
+            },
+        };
+        st.ev(format!("C poll(gen {gen})->{}", match &ev {
+            Ev::Data(n) => format!("data {n}"),
+            Ev::Pending => "Pending".into(),
+            Ev::End => "End".into(),
+            Ev::Err(e) => format!("{e:?}"),
+            Ev::Panic(_) => "PANIC".into(),
+        }));
+        let step = Step {
+            lower,
+            upper,
+            eos: case.cfg.sample && eos,
+            ev: ev.clone(),
+        };
+        if terminal {
+            t.extra.push(step);
+        } else {
+            t.steps.push(step);
+        }
+        match ev {
+            Ev::Panic(_) => break,
+            Ev::End | Ev::Err(_) => {
+                if !terminal {
+                    terminal = true;
+                    st.c_terminal = true;
+                    if matches!(ev, Ev::Err(_)) {
+                        st.abort_delivered = true;
+                    }
+                }
+                drop(st);
+            }
+            Ev::Data(_) => {
+                drop(st);
+            }
+            Ev::Pending => {
+                if terminal {
+                    drop(st);
+                    continue;
+                }
+                // Park until woken on the current waker (or granted a spurious poll).
+                st.c_parked = true;
+                st.parks += 1;
+                st.spurious_granted = false;
+                let already_woken = st.woken;
+                drop(st);
+                sched.yield_point(Actor::C, already_woken);
+                let mut st = sched.m.lock().unwrap();
+                st.c_parked = false;
+                if st.spurious_granted {
+                    st.ev("C spurious poll".into());
+                }
+            }
+        }
+    }
+    *out.lock().unwrap() = t;
+    // The body is dropped on this thread, still under the scheduler.
+    let _ = crate::panics::guard(move || drop(body));
+    uninstall();
+    sched.finish(Actor::C);
+}
+
+type Job = Box<dyn FnOnce() + Send>;
+
+/// Two persistent actor threads per calling thread (spawning a pair per execution made the
+/// kernel's address-space lock the bottleneck when 16 shards did it at once).
+struct Pair {
+    tx: [std::sync::mpsc::Sender<Job>; 2],
+    done: std::sync::mpsc::Receiver<()>,
+}
+
+thread_local! {
+    static PAIR: std::cell::RefCell<Option<Pair>> = const { std::cell::RefCell::new(None) };
+}
+
+fn run_pair(p: Job, c: Job) {
+    PAIR.with(|cell| {
+        let mut cell = cell.borrow_mut();
+        let pair = cell.get_or_insert_with(|| {
+            let (done_tx, done) = std::sync::mpsc::channel();
+            let mk = |name: &str| {
+                let (tx, rx) = std::sync::mpsc::channel::<Job>();
+                let d = done_tx.clone();
+                std::thread::Builder::new()
+                    .name(name.to_string())
+                    .stack_size(512 * 1024)
+                    .spawn(move || {
+                        while let Ok(job) = rx.recv() {
+                            let _ = std::panic::catch_unwind(std::panic::AssertUnwindSafe(job));
+                            if d.send(()).is_err() {
+                                break;
+                            }
+                        }
+                    })
+                    .expect("spawn actor thread");
+                tx
+            };
+            Pair {
+                tx: [mk("vp-producer"), mk("vp-consumer")],
+                done,
+            }
+        });
+        pair.tx[0].send(p).expect("producer thread alive");
+        pair.tx[1].send(c).expect("consumer thread alive");
+        for _ in 0..2 {
+            if pair.done.recv_timeout(std::time::Duration::from_secs(120)).is_err() {
+                println!("INCONCLUSIVE: scheduler watchdog: an actor thread did not finish within 120 s");
+                std::process::exit(2);
+            }
+        }
+    });
+}
+
+/// Runs one schedule.
+pub fn execute(case: &SchedCase) -> Outcome {
+    let (_head, body, w) = build(None, case.chunk);
+    let w = w.expect("writer");
+    let sched = Arc::new(Sched {
+        m: Mutex::new(St {
+            current: Some(Actor::P),
+            choices: case.choices.clone(),
+            spurious_left: case.cfg.spurious,
+            waker_gen: 1,
+            ..Default::default()
+        }),
+        cv: Condvar::new(),
+    });
+    let trace = Arc::new(Mutex::new(Trace {
+        steps: vec![],
+        extra: vec![],
+        body: vec![],
+        delivered: 0,
+        frames: 0,
+        empty_frames: 0,
+        pendings: 0,
+        capped: false,
+        stalled: false,
+    }));
+    let (s1, s2) = (sched.clone(), sched.clone());
+    let (c1, c2) = (case.clone(), case.clone());
+    let tr = trace.clone();
+    run_pair(Box::new(move || producer(s1, w, c1)), Box::new(move || consumer(s2, body, c2, tr)));
+    let mut st = sched.m.lock().unwrap();
+    let t = trace.lock().unwrap().clone();
+    // End-of-run invariants.
+    if st.violation.is_none() {
+        let ev = st.events.join(" | ");
+        match (st.aborted, t.terminal()) {
+            (None, Some(Ev::End)) => {
+                if st.received != st.accepted {
+                    let (r, a) = (st.received.len(), st.accepted.len());
+                    st.violate("missing-bytes", format!("clean end after {r} bytes, {a} were accepted and flushed; history: {ev}"));
+                }
+            }
+            (Some(id), Some(Ev::Err(HarnessError::Injected(e)))) if *e == id => {
+                if !st.accepted.starts_with(&st.received) {
+                    st.violate("abort:not-a-prefix", format!("bytes received before the abort error are not a prefix of the bytes written; history: {ev}"));
+                }
+            }
+            (ab, term) => {
+                let term = format!("{term:?}");
+                st.violate(
+                    if ab.is_some() { "abort:terminal-not-the-error" } else { "wrong-terminal" },
+                    format!("terminal event {term}, abort {ab:?}; history: {ev}"),
+                );
+            }
+        }
+        if st.violation.is_none() && st.polls_after_gone > st.queued_at_gone + 3 + case.cfg.spurious as usize {
+            let (p, q) = (st.polls_after_gone, st.queued_at_gone);
+            st.violate("too-many-polls", format!("{p} polls after the writer was gone ({q} chunks were queued); history: {ev}"));
+        }
+    }
+    let preemptions = st.log.iter().filter(|c| c.preemptive && c.chosen > 0).count();
+    Outcome {
+        log: st.log.clone(),
+        violation: st.violation.clone(),
+        trace: t,
+        parks: st.parks,
+        producer_after_park: st.producer_after_park,
+        events: st.events.clone(),
+        preemptions,
+    }
+}
+
+/// Evaluates one schedule for C10 (progress) or C11 (abort) and classifies it.
+pub fn check(case: &SchedCase, acc: &mut Acc, c11: bool) -> (Check, Vec<ChoicePoint>) {
+    let out = execute(case);
+    let log = out.log.clone();
+    let r = (|| {
+        if let Some(v) = &out.violation {
+            if v.sig.starts_with("internal:") {
+                acc.internal_errors.push(format!("{}: {}; case {}", v.sig, v.msg, serde_json::to_string(case).unwrap_or_default()));
+                return Ok(());
+            }
+            let is_abort = v.sig.starts_with("abort:") || v.sig == "lost-wakeup:abort";
+            if c11 && !is_abort && !v.sig.starts_with("panic:") {
+                acc.count("progress-violation-seen(see C10)");
+                return Ok(());
+            }
+            return fail(v.sig.clone(), format!("{}; case {}", v.msg, serde_json::to_string(case).unwrap_or_default()));
+        }
+        // Secondary monitors on the consumer's trace.
+        if case.cfg.sample {
+            let r = check_eos_truthful(&out.trace, "scheduled-streaming");
+            if let Err(f) = r {
+                if c11 {
+                    return fail(format!("abort:{}", f.sig), format!("{}; case {}", f.msg, serde_json::to_string(case).unwrap_or_default()));
+                }
+                acc.count("eos-violation-seen(see C12)");
+            }
+        }
+        if check_terminated_stays(&out.trace, "scheduled-streaming").is_err() {
+            acc.count("repoll-violation-seen(see C20)");
+        }
+        let has_abort = case.program.iter().any(|o| matches!(o, POp::Abort));
+        let label = format!(
+            "{}{}{}",
+            if has_abort { "abort" } else { "clean" },
+            if case.cfg.fresh_waker { ":fresh-waker" } else { ":same-waker" },
+            if out.parks > 0 { ":parked" } else { "" }
+        );
+        let nontrivial = out.parks > 0 || out.preemptions > 0;
+        acc.note(&label, nontrivial, fingerprint(&(&case.program, case.cfg, &case.choices, case.chunk)), || {
+            json!({"case": case, "history": out.events, "preemptions": out.preemptions})
+        });
+        Ok(())
+    })();
+    (r, log)
+}
+
+/// Stateless DFS over the choice tree of one (program, config) with a preemption bound.
+pub fn explore(cx: &Cx, phase: &str, base: &SchedCase, max_preempt: usize, cap: usize, acc: &mut Acc, c11: bool) -> bool {
+    let mut prefix: Vec<u8> = Vec::new();
+    let mut n = 0usize;
+    loop {
+        let case = SchedCase {
+            choices: prefix.clone(),
+            ..base.clone()
+        };
+        let mut log = Vec::new();
+        acc.run_case(cx, phase, &case, |acc| {
+            let (r, l) = check(&case, acc, c11);
+            log = l;
+            r
+        });
+        n += 1;
+        if n >= cap {
+            acc.count("schedule-cap-reached");
+            return false;
+        }
+        // Backtrack: find the last choice point that still has an affordable alternative.
+        let mut next: Option<Vec<u8>> = None;
+        let mut i = log.len();
+        while i > 0 {
+            i -= 1;
+            let used: usize = log[..i].iter().filter(|c| c.preemptive && c.chosen > 0).count();
+            let cp = log[i];
+            let cand = cp.chosen + 1;
+            if cand < cp.options {
+                let cost = if cp.preemptive { 1 } else { 0 };
+                if used + cost <= max_preempt {
+                    let mut p: Vec<u8> = log[..i].iter().map(|c| c.chosen).collect();
+                    p.push(cand);
+                    next = Some(p);
+                    break;
+                }
+            }
+        }
+        match next {
+            Some(p) => prefix = p,
+            None => return true,
+        }
+    }
+}
+
+pub fn programs(max_len: usize, with_abort: bool) -> Vec<Vec<POp>> {
+    let mut alphabet = vec![POp::Write(1), POp::Write(2), POp::Flush, POp::Wait];
+    if with_abort {
+        alphabet.push(POp::Abort);
+    }
+    let mut out: Vec<Vec<POp>> = vec![vec![]];
+    let mut frontier: Vec<Vec<POp>> = vec![vec![]];
+    for _ in 0..max_len {
+        let mut nf = Vec::new();
+        for p in &frontier {
+            for o in &alphabet {
+                // nothing useful after an abort except further (failing) calls: keep one
+                if p.iter().filter(|x| matches!(x, POp::Abort)).count() >= 1 && matches!(o, POp::Abort | POp::Wait) {
+                    continue;
+                }
+                let mut q = p.clone();
+                q.push(*o);
+                nf.push(q);
+            }
+        }
+        out.extend(nf.iter().cloned());
+        frontier = nf;
+    }
+    out
+}
+
+pub fn configs() -> Vec<CCfg> {
+    let mut v = Vec::new();
+    for fresh_waker in [false, true] {
+        for spurious in [0u8, 2] {
+            for sample in [false, true] {
+                v.push(CCfg {
+                    fresh_waker,
+                    spurious,
+                    sample,
+                    extra_polls: 1,
+                });
+            }
+        }
+    }
+    v
+}
+
+fn random_strategy(with_abort: bool) -> BoxedStrategy<SchedCase> {
+    let op = if with_abort {
+        prop_oneof![3 => (1u32..=5).prop_map(POp::Write), 2 => Just(POp::Flush), 2 => Just(POp::Wait), 1 => Just(POp::Abort)].boxed()
+    } else {
+        prop_oneof![3 => (1u32..=5).prop_map(POp::Write), 2 => Just(POp::Flush), 2 => Just(POp::Wait)].boxed()
+    };
+    (
+        vec(op, 0..=6),
+        proptest::sample::select(&[1usize, 2, 3][..]),
+        any::<bool>(),
+        0u8..=2,
+        any::<bool>(),
+        1u8..=3,
+        vec(0u8..2, 0..60),
+    )
+        .prop_map(move |(mut program, chunk, fresh_waker, spurious, sample, extra_polls, choices)| {
+            if with_abort && !program.iter().any(|o| matches!(o, POp::Abort)) {
+                let at = choices.len() % (program.len() + 1);
+                program.insert(at, POp::Abort);
+            }
+            SchedCase {
+                chunk,
+                program,
+                cfg: CCfg {
+                    fresh_waker,
+                    spurious,
+                    sample,
+                    extra_polls,
+                },
+                choices,
+            }
+        })
+        .boxed()
+}
+
+pub const META_C10: Meta = Meta {
+    id: "C10",
+    level: "exploration",
+    rule: "Schedule enumeration on the real chunker code through hook H1: producer programs of up to 4 operations (thorough 5) over {write(1), write(2), flush, wait-until-delivered} + drop, chunk size 2, against a consumer that parks on Pending, with same/fresh waker per poll (wakes to superseded wakers are ignored), 0 or 2 spurious polls, with/without is_end_stream/size_hint sampling; every schedule with <= 2 preemptions (thorough 3) is executed by stateless DFS (two real threads, exactly one runs, hand-over at lock acquisitions, wake() and operation boundaries); plus proptest over programs of <= 6 operations, chunk sizes 1-3 and random choice vectors (unbounded preemptions). Oracle (history invariants): no quiescent state with the consumer parked and un-woken while data, end or abort is undelivered; everything flushed is received in order before a clean end; bounded polls after the writer is gone. Non-trivial = schedule in which the consumer parked at least once or an actor was preempted; distinct by (program, config, choice vector).",
+    assumptions: &[
+        "interleavings are at lock / wake / operation granularity: complete for this code because every shared field sits behind the one instrumented mutex",
+        "no weak-memory effects (all sharing goes through std::sync::Mutex)",
+    ],
+};
+
+fn run_common(cx: &Cx, c11: bool) -> Acc {
+    let mut acc = Acc::new();
+    let max_len = cx.tier.pick(4usize, 5usize);
+    let max_preempt = cx.tier.pick(2usize, 3usize);
+    let cap = cx.tier.pick(4000usize, 60_000usize);
+    let mut units: Vec<SchedCase> = Vec::new();
+    for program in programs(max_len, c11) {
+        if c11 && !program.iter().any(|o| matches!(o, POp::Abort)) {
+            continue;
+        }
+        for cfg in configs() {
+            units.push(SchedCase {
+                chunk: 2,
+                program: program.clone(),
+                cfg,
+                choices: vec![],
+            });
+        }
+    }
+    let phase = if c11 { "sched-abort-enumeration" } else { "sched-enumeration" };
+    let complete = std::sync::atomic::AtomicBool::new(true);
+    let mut a = par_units(cx, phase, &units, true, "all schedules within the preemption bound for each (program, consumer config)", |cx, base, acc| {
+        if !explore(cx, phase, base, max_preempt, cap, acc, c11) {
+            complete.store(false, std::sync::atomic::Ordering::Relaxed);
+        }
+    });
+    if !complete.load(std::sync::atomic::Ordering::Relaxed) {
+        if let Some(p) = a.phases.last_mut() {
+            p["exhaustive"] = json!(false);
+            p["what"] = json!(format!("{} (schedule cap of {cap} per program reached for some programs)", p["what"].as_str().unwrap_or("")));
+        }
+    }
+    acc.merge(a);
+    let n = cx.tier.pick(1u64, 20u64);
+    let phase_r = if c11 { "sched-abort-random" } else { "sched-random" };
+    acc.merge(par_proptest(cx, phase_r, if c11 { 60_000 * n } else { 150_000 * n }, move || random_strategy(c11), |c, acc| check(c, acc, c11).0));
+    acc
+}
+
+pub fn run_c10(cx: &Cx) -> Acc {
+    run_common(cx, false)
+}
+
+pub fn run_for_c11(cx: &Cx) -> Acc {
+    run_common(cx, true)
+}
+
+pub fn replay(_cx: &Cx, _phase: &str, case: &Value, acc: &mut Acc, c11: bool) -> Check {
+    let c: SchedCase = serde_json::from_value(case.clone()).map_err(|e| Fail {
+        sig: "replay-decode".into(),
+        msg: e.to_string(),
+    })?;
+    check(&c, acc, c11).0
+}
+
+pub fn replay_c10(cx: &Cx, phase: &str, case: &Value, acc: &mut Acc) -> Check {
+    replay(cx, phase, case, acc, false)
+}
+
+pub fn health_c10(acc: &Acc) -> Vec<String> {
+    let mut v = Vec::new();
+    for l in ["clean:same-waker:parked", "clean:fresh-waker:parked"] {
+        if acc.label(l) < 100 {
+            v.push(format!("label {l} seen only {} times", acc.label(l)));
+        }
+    }
+    v
 }
